@@ -475,7 +475,8 @@ def _optimize_struct_fmt(info: Iterator[tuple[Field, int, str]]) -> str:
 
 
 def _get_read_type(cs: cstruct, type_: type[BaseType]) -> type[BaseType]:
-    if issubclass(type_, (Enum, Flag)):
+    while issubclass(type_, (Enum, Flag)):
+        # (the underlying type of an enum may be an enum itself)
         type_ = type_.type
 
     if issubclass(type_, Pointer):
